@@ -229,6 +229,18 @@ pub enum Kind {
     CreateDirExtract,
     RenameExtract,
     RemoveExtract,
+    // Operations carrying non-default builder settings (offsets, flags): a re-issue must carry them too.
+    ReadVecFrom,
+    WriteVecAt,
+    ReadVectoredFrom,
+    WriteVectoredAt,
+    RecvPeek,
+    RecvPoolWaitAll,
+    RecvFromPeek,
+    SendMore,
+    SendZcMore,
+    SendToMore,
+    MultishotRecvPeek,
 }
 
 #[derive(Clone, Copy, Debug, PartialEq, Eq)]
@@ -260,14 +272,15 @@ impl Kind {
         use Kind::*;
         match self {
             ReadVec | ReadVecPrefilled | ReadVectored2 | Recv | RecvVectored | RecvFrom
-            | RecvFromVectored | LocalAddr | SockOpt | Statx | WaitId | ReadLimited | PeerAddr | ReceiveSignal | RereadHeld => Class::Data,
+            | RecvFromVectored | LocalAddr | SockOpt | Statx | WaitId | ReadLimited | PeerAddr | ReceiveSignal | RereadHeld | ReadVecFrom
+            | ReadVectoredFrom | RecvPeek | RecvFromPeek => Class::Data,
             WriteVec | WriteStatic | WriteString | WriteBoxed | WriteArc | WriteVectored2
             | WriteVectoredTuple | Send | SendTo | SendVectored | Connect | Bind | SetSockOpt
             | CreateDir | Rename | RemoveFile | Fsync | Truncate | Shutdown | CloseFd | Listen | SyncData | FAdvise
-            | Allocate | MemAdvise | SpliceTo | SpliceFrom | SendToVectored | CreateDirExtract | RenameExtract | RemoveExtract => Class::Plain,
-            SendZc | SendToZc | SendVectoredZc => Class::TwoStep,
-            ReadPool | RecvPool | RecvFromPool => Class::PoolOne,
-            MultishotRead | MultishotRecv => Class::StreamBuf,
+            | Allocate | MemAdvise | SpliceTo | SpliceFrom | SendToVectored | CreateDirExtract | RenameExtract | RemoveExtract | WriteVecAt | WriteVectoredAt | SendMore | SendToMore => Class::Plain,
+            SendZc | SendToZc | SendVectoredZc | SendZcMore => Class::TwoStep,
+            ReadPool | RecvPool | RecvFromPool | RecvPoolWaitAll => Class::PoolOne,
+            MultishotRead | MultishotRecv | MultishotRecvPeek => Class::StreamBuf,
             MultishotAccept => Class::StreamDesc,
             Accept | AcceptNoAddr | OpenFile | OpenDirect | Socket | SocketDirect | Pipe
             | PipeDirect | ToDirect | OpenTemp | ToFd | OpenExtract => Class::Desc,
@@ -285,7 +298,8 @@ impl Kind {
             ReadVec | ReadVecPrefilled | ReadVectored2 | Recv | RecvVectored | RecvFrom | RecvFromVectored | ReadLimited
                 | WriteVec | WriteStatic | WriteString | WriteBoxed | WriteArc | WriteVectored2 | WriteVectoredTuple
                 | Send | SendTo | SendVectored | ReadPool | RecvPool | RecvFromPool | ReadN | WriteAll | WriteAllVectored | SendAll
-                | SpliceTo | SpliceFrom | SendToVectored | RecvN | ReadNVectored | SendAllVectored | RereadHeld
+                | SpliceTo | SpliceFrom | SendToVectored | RecvN | ReadNVectored | SendAllVectored | RereadHeld | ReadVecFrom
+                | WriteVecAt | ReadVectoredFrom | WriteVectoredAt | RecvPeek | RecvPoolWaitAll | RecvFromPeek | SendMore | SendToMore
         )
     }
 
@@ -414,6 +428,21 @@ pub fn make(kind: Kind, env: &Env<'_>) -> Op {
         SendAll => single(fd.send_all(data(n, 5)), |(): (), _| "unit".to_string()),
         CloseFd => unreachable!("CloseFd is made with make_close"),
         RereadHeld => unreachable!("RereadHeld is made with make_reread"),
+        ReadVecFrom => single(fd.read(Vec::with_capacity(8 + n)).from(0x1234), |b: Vec<u8>, _| format!("bytes:{}", hex(&b))),
+        WriteVecAt => single(fd.write(data(n, 5 + n)).at(0x4321), |c: usize, _| format!("n:{c}")),
+        ReadVectoredFrom => single(fd.read_vectored([Vec::with_capacity(3), Vec::with_capacity(4 + n)]).from(77), |b: [Vec<u8>; 2], _| {
+            format!("bytes:{}|{}", hex(&b[0]), hex(&b[1]))
+        }),
+        WriteVectoredAt => single(fd.write_vectored([data(n, 3), data(n + 1, 4)]).at(99), |c: usize, _| format!("n:{c}")),
+        RecvPeek => single(fd.recv(Vec::with_capacity(7 + n)).flags(a10::net::RecvFlag::PEEK), |b: Vec<u8>, _| format!("bytes:{}", hex(&b))),
+        RecvPoolWaitAll => single(fd.recv(env.pool.unwrap().get()).flags(a10::net::RecvFlag::WAIT_ALL), |b: a10::io::ReadBuf, h| buf_str(b, h)),
+        RecvFromPeek => single(fd.recv_from::<_, SocketAddr>(Vec::with_capacity(6)).flags(a10::net::RecvFlag::PEEK), |(b, a, f): (Vec<u8>, SocketAddr, i32), _| {
+            format!("bytes:{}:from:{a}:flags:{f}", hex(&b))
+        }),
+        SendMore => single(fd.send(data(n, 4 + n)).flags(a10::net::SendFlag::MORE), |c: usize, _| format!("n:{c}")),
+        SendZcMore => single(fd.send(data(n, 4 + n)).flags(a10::net::SendFlag::MORE).zc(), |c: usize, _| format!("n:{c}")),
+        SendToMore => single(fd.send_to(data(n, 5), v4(n)).flags(a10::net::SendFlag::MORE), |c: usize, _| format!("n:{c}")),
+        MultishotRecvPeek => stream!(fd.multishot_recv(env.pool.unwrap().clone()).flags(a10::net::RecvFlag::PEEK), |b: a10::io::ReadBuf, h: &Held| buf_str(b, h)),
         ToFd => single(fd.to_file_descriptor(), |f: AsyncFd, h| fd_str(f, h)),
         RecvFromPool => single(fd.recv_from::<_, SocketAddr>(env.pool.unwrap().get()), |(b, a, f): (a10::io::ReadBuf, SocketAddr, i32), h| {
             format!("{}:from:{a}:flags:{f}", buf_str(b, h))
